@@ -543,6 +543,37 @@ def run_cases_parallel(cases: List[dict], workers: int = 8, per_case_timeout: in
     return out
 
 
+def load_stored() -> List[dict]:
+    """minimised past failures (corpus/C32/case_*.json), run before anything else"""
+    import pandas as pd
+    out = []
+    for p in sorted((CORPUS / "C32").glob("case_*.json")) if (CORPUS / "C32").is_dir() else []:
+        try:
+            d = json.loads(p.read_text())
+            data = {k: (pd.DataFrame(v) if isinstance(v, dict) else Path(v)) for k, v in (d.get("data") or {}).items()}
+            out.append({"family": d["family"], "shape": d["shape"], "script": d["script"], "structs": d["structs"], "data": data,
+                        "kw": d.get("kw") or {}, "stored": p.name})
+        except Exception as e:
+            print(f"[warn] unreadable stored case {p}: {e}", flush=True)
+    return out
+
+
+def store_case(key: str, rep: dict) -> None:
+    import hashlib
+    if rep.get("env") or rep.get("family") == "corpus":
+        return
+    d = CORPUS / "C32"
+    d.mkdir(parents=True, exist_ok=True)
+    kw = {k: v for k, v in (rep.get("kw") or {}).items() if k in ("time_period_output_format", "output_format")}
+    if (rep.get("kw") or {}).get("output_folder"):
+        kw["output_folder"] = "@TMP"
+    if (rep.get("kw") or {}).get("return_only_persistent") == "False":
+        kw["return_only_persistent"] = False
+    h = hashlib.sha1(key.encode()).hexdigest()[:10]
+    (d / f"case_{h}.json").write_text(json.dumps({"key": key, "family": rep["family"], "shape": rep["shape"], "script": rep["script"],
+                                                  "structs": rep["structs"], "data": rep["data"], "kw": kw}, indent=1, default=str) + "\n")
+
+
 def is_violation(r: dict) -> bool:
     return r["sem"] == "ok" and r["load"] == "ok" and r["run"][0] in ("RawDuckDB", "RawPython")
 
@@ -677,13 +708,13 @@ def run(ctx):
     tmp_root = Path(tempfile.mkdtemp(prefix="c32_"))
     results: List[dict] = []
     cases = gen_cases(ctx.rng, ctx.tier)
-    n_corpus = 120 if ctx.tier == "quick" else None
+    n_corpus = 80 if ctx.tier == "quick" else None
     ccases = corpus_cases(ctx.rng, n_corpus)
-    stored = sorted((CORPUS / "C32").glob("case_*.json")) if (CORPUS / "C32").is_dir() else []
+    stored = load_stored()
     ctx.log(f"K: {len(cases)} generated cases, {len(ccases)} corpus scripts, {len(stored)} stored cases, {len(config_cases())} configurations")
     hist: Dict[str, Dict[str, int]] = {}
     try:
-        allc = cases + ccases
+        allc = stored + cases + ccases      # minimised past failures first
         for c, r in zip(allc, run_cases_parallel(allc)):
             if r["run"][0] == "HarnessError":
                 ctx.oblige(f"case ran: {c['family']}:{c['shape']}", False, r.get("msg", ""))
@@ -693,8 +724,11 @@ def run(ctx):
             h = hist.setdefault(c["family"], {})
             k = r["run"][0] + (":" + str(r["run"][1]) if r["run"][1] else "")
             h[k] = h.get(k, 0) + 1
-        for c in config_cases():
-            r = run_config_case(c)
+        from concurrent.futures import ThreadPoolExecutor
+        ccs = config_cases()
+        with ThreadPoolExecutor(max_workers=4) as tp:
+            cres = list(tp.map(run_config_case, ccs))
+        for c, r in zip(ccs, cres):
             r["case"] = c
             results.append(r)
             ctx.count(("config", c["shape"]))
@@ -760,6 +794,8 @@ def run(ctx):
                "kw": {k: str(v) for k, v in (c.get("kw") or {}).items()},
                "expected": "results or a VTLEngineException with a catalogued code", "observed": f"{r.get('exc_class')}: {r.get('msg', '')[:300]}",
                "stage": r.get("stage")}
+        if ctx._known_key(key_of(r)) is None:
+            store_case(key_of(r), rep)      # a new failure joins the corpus that is run first next time
         ctx.violation(key_of(r), f"{r['family']} [{r['shape']}]: semantic analysis and load validation pass, run() lets a raw "
                                  f"{r.get('exc_class')} escape from stage {r.get('stage')}: {r.get('msg', '')[:160]}", rep)
     ctx.cov["raw_escapes"] = nv
